@@ -209,8 +209,9 @@ def run(chk, rebaseline=False):
         "the generated-program stream uses fixed PRNG seeds (not VERIF_SEED): a new seed can expose one of the many unlisted library "
         "deviations of the pinned tree, which would make the check raise an alarm on the unchanged tree",
     ]
-    chk.prove(["theories/Lang/Properties.vo", "theories/Lang/OpsExec.vo", "theories/Lang/CoreProperties.vo", "theories/Lang/CoreExec.vo"],
-              ["theories/Lang/Properties.v", "theories/Lang/CoreProperties.v"])
+    chk.prove(["theories/Lang/Properties.vo", "theories/Lang/OpsExec.vo", "theories/Lang/CoreProperties.vo", "theories/Lang/PrattProperties.vo",
+               "theories/Lang/CoreExec.vo"],
+              ["theories/Lang/Properties.v", "theories/Lang/CoreProperties.v", "theories/Lang/PrattProperties.v"], facts=["C01"])
     ok, out, chk.th = common.build_harness("debug")
     if not ok:
         chk.proof_breaks.append("harness does not build against /repo: " + out[-800:])
@@ -365,7 +366,8 @@ def run(chk, rebaseline=False):
         if not compare_program(t, n):
             devp[name[1:]] = {"tsrun": (t.get("value") or t.get("class") or t.get("status"))[:200], "reference": (n.get("value") or n.get("class"))[:200]}
     if rebaseline:
-        known["programs"] = devp
+        # a quick re-baselining keeps the entries of the seeds only the thorough tier runs
+        known["programs"] = dict({k: v for k, v in known.get("programs", {}).items() if int(k) >= n_prog}, **devp)
         os.makedirs(os.path.join(common.CORPUS, PID), exist_ok=True)
         json.dump(known, open(os.path.join(common.CORPUS, PID, "known_deviations.json"), "w"), indent=1, sort_keys=True)
         log("rebaselined: %d probe deviations, %d program deviations" % (len(known["probes"]), len(known["programs"])))
